@@ -2,7 +2,7 @@
 from __future__ import annotations
 
 import ast
-from typing import List, Optional, Set
+from typing import Dict, List, Optional, Set
 
 from ..cfg import NORMAL, Node, handler_classes
 from ..core import Ctx
@@ -31,8 +31,28 @@ NOT_DECIDED = "the interleavings; that every caller ends on the same table at ru
 MM = "metadata_manager.MetadataManager"
 
 
+def one_class_per_exception_name(ctx: Ctx, rid: str = "C18.R20") -> None:
+    ctx.rule(rid, "what is raised is what is caught: every exception class of the package is defined ONCE - a second class of the "
+             "same name (left behind when the classes moved to another module) is a different type: `except TableExistsError` in "
+             "the creator no longer catches the initialiser's TableExistsError, and the loser of a creation race gets an error "
+             "instead of the winner's table", 1)
+    by_name: Dict[str, List] = {}
+    for ci in ctx.prog.classes.values():
+        is_exc = any(b.split(".")[-1].endswith(("Error", "Exception")) for b in ci.base_names) or ci.name.endswith(("Error", "Exception"))
+        if is_exc:
+            by_name.setdefault(ci.name, []).append(ci)
+    anyf = ctx.fn("metadata_manager.MetadataManager.initialize_table")
+    for nm, cs in sorted(by_name.items()):
+        ctx.ob(rid, anyf, f"exception class {nm} is defined once", None, len(cs) == 1,
+               f"defined in {sorted(c.module.short for c in cs)}" + ("" if len(cs) == 1 else ": two unrelated types share the name - a handler "
+                                                                      "naming one does not catch the other"), text=nm)
+    if len(by_name) < 5:
+        raise AnalysisError(f"only {len(by_name)} exception classes found in the package")
+
+
 def check(ctx: Ctx) -> None:
     _check(ctx)
+    one_class_per_exception_name(ctx)
     # a pointer naming a missing file must lead to recovery, not to "no table" (which re-initialises over the table)
     from .c10 import r2 as c10_r2
     ctx.shared(c10_r2, "C10.R2", "C18.R9", "an existing table is never taken for an uninitialised one")
